@@ -103,11 +103,10 @@ def run(ctx):
     ctx.log("behaviours: libp2p sweep %d + sim %d, daisy sweep %d + sim %d" % (len(sweep_lp), len(sim_lp), len(sweep_dy), len(sim_dy)))
     if len(sweep_lp) < 100 or len(sweep_dy) < 50 or len(sim_lp) < 20 or len(sim_dy) < 20:
         raise vlib.Inconclusive("behaviour export too small")
-    if quick:
-        rnd.shuffle(sim_lp)
-        sim_lp = sim_lp[:150]
-        rnd.shuffle(sim_dy)
-        sim_dy = sim_dy[:300]
+    rnd.shuffle(sim_lp)
+    rnd.shuffle(sim_dy)
+    sim_lp = sim_lp[:150 if quick else 3000]
+    sim_dy = sim_dy[:300 if quick else 3000]
     behs = sweep_lp + sim_lp + sweep_dy + sim_dy
     for i, b in enumerate(behs):
         b["idx"] = i
@@ -164,8 +163,15 @@ def run(ctx):
         ro = dict(r)
         if r.get("beh", -1) in byidx and r.get("phase") == "replay":
             ro["behaviour"] = byidx[r["beh"]]
-        what = "%s on %s: message class %s observed at C / accepted by the validator without an Accepted verdict of B's handler (%s)" % (
-            r.get("predicate"), site, json.dumps(r.get("cls", r.get("f"))), cl)
+        if r.get("predicate") == "FeedbackMapping" and site == "exchangeFeedbackToLibp2p":
+            what = "FeedbackMapping: exchangeFeedbackToLibp2p(%s) returned %s (spec: %s); only Accepted(1) may map to accept and out-of-range values must map to ignore" % (r.get("f"), r.get("got"), r.get("want"))
+        elif r.get("predicate") == "FeedbackMapping":
+            what = "FeedbackMapping: DaisyChainConnection relayed a message to C although B's handler returned feedback %s (%s)" % (r.get("f"), cl)
+        elif site == "libp2p-validator":
+            what = "RelayedOnlyIfAccepted: the real topic validator for slot %s returned accept (= pubsub forwards) for message class %s without an Accepted verdict of the handler (%s)" % (r.get("h"), json.dumps(r.get("cls")), cl)
+        else:
+            what = "RelayedOnlyIfAccepted on the real %s line A-B-C: a message of class %s published by A arrived at C although no handler of B returned Accepted for it (%s; phase %s, B slot %s, B verdicts %s)" % (
+                site, json.dumps(r.get("cls")), cl, r.get("phase"), r.get("slot"), json.dumps(r.get("verdicts")))
         before = len(ctx.violations)
         ctx.violation(r.get("predicate"), site, cl, what, replay_obj=ro)
         if len(ctx.violations) == before and (site, cl) in CLASS_DEV:
